@@ -19,6 +19,7 @@ type C02Scn struct {
 	Lists [][]string `json:"lists"` // tag list entries of each non-root logger
 	Root  int        `json:"root"`  // 0 no root configured, 1 root, 2 root that (illegally) lists tags
 	Sep   string     `json:"sep"`   // separator spelling between entries
+	Prior bool       `json:"prior_failed_refresh,omitempty"` // a Refresh that fails late (after its root logger was built) precedes the judged one
 }
 
 func (s *C02Scn) knobs() SimKnobs { return s.Knobs }
@@ -39,7 +40,7 @@ func (c02) Decode(raw json.RawMessage) (any, error) {
 }
 
 // some segments are string prefixes of others: a wildcard P_* must match on whole segments only
-var tagVocab = []string{"app", "appx", "biz", "rpc", "db1", "db12"}
+var tagVocab = []string{"app", "appx", "biz", "rpc", "db1", "db12", "x"}
 
 func genTagName(rt *rapid.T) string {
 	n := rapid.IntRange(1, 4).Draw(rt, "segs")
@@ -48,6 +49,9 @@ func genTagName(rt *rapid.T) string {
 		parts = append(parts, rapid.SampledFrom(tagVocab).Draw(rt, "seg"))
 	}
 	t := strings.Join(parts, "_")
+	if len(t) < 3 {
+		t = "app_" + t // a registered tag has at least three characters
+	}
 	if rapid.Bool().Draw(rt, "lead") {
 		t = "_" + t
 	}
@@ -58,7 +62,11 @@ func (c02) Gen(rt *rapid.T, thorough bool) any {
 	s := &C02Scn{Knobs: genKnobs(rt), Style: genStyle(rt)}
 	s.Knobs.MapSeed = rapid.Uint64Range(0, 1<<20).Draw(rt, "map_seed2")
 	seen := map[string]bool{}
+	big := rapid.IntRange(0, 5).Draw(rt, "many_entries") == 0 // more list entries than small-input shortcuts of library routines cover
 	nt := rapid.IntRange(1, 8).Draw(rt, "ntags")
+	if big {
+		nt = rapid.IntRange(8, 20).Draw(rt, "ntags_big")
+	}
 	for i := 0; i < nt; i++ {
 		t := genTagName(rt)
 		if !seen[t] {
@@ -68,15 +76,26 @@ func (c02) Gen(rt *rapid.T, thorough bool) any {
 	}
 	all := append([]string{"_app_def", "_biz_def"}, s.Tags...)
 	nl := rapid.IntRange(0, 4).Draw(rt, "nloggers")
+	owned := map[string]int{}
+	if big {
+		nl = rapid.IntRange(3, 4).Draw(rt, "nloggers_big")
+	}
 	for i := 0; i < nl; i++ {
 		var list []string
 		ne := rapid.IntRange(1, 3).Draw(rt, "nentries")
+		if big {
+			ne = rapid.IntRange(3, 9).Draw(rt, "nentries_big")
+		}
 		if rapid.IntRange(0, 29).Draw(rt, "empty_list") == 0 {
 			ne = 0
 		}
 		for j := 0; j < ne; j++ {
 			base := rapid.SampledFrom(all).Draw(rt, "base")
-			switch rapid.IntRange(0, 9).Draw(rt, "entry_kind") {
+			kind := rapid.IntRange(0, 9).Draw(rt, "entry_kind")
+			if big && kind == 4 {
+				kind = 5 // large configurations are kept valid: their point is the resolution itself
+			}
+			switch kind {
 			case 0, 1, 2:
 				list = append(list, base) // literal
 			case 3:
@@ -97,6 +116,20 @@ func (c02) Gen(rt *rapid.T, thorough bool) any {
 				list = append(list, p+"_*")
 			}
 		}
+		if big {
+			// an entry another logger already lists would only make the configuration invalid
+			var keep []string
+			for _, e := range list {
+				if o, ok := owned[e]; !ok || o == i {
+					owned[e] = i
+					keep = append(keep, e)
+				}
+			}
+			if len(keep) == 0 {
+				keep = []string{fmt.Sprintf("own%d_*", i)}
+			}
+			list = keep
+		}
 		s.Lists = append(s.Lists, list)
 	}
 	s.Root = rapid.SampledFrom([]int{0, 1, 1, 1, 2}).Draw(rt, "root")
@@ -104,6 +137,7 @@ func (c02) Gen(rt *rapid.T, thorough bool) any {
 		s.Root = 1
 	}
 	s.Sep = rapid.SampledFrom([]string{",", ", ", " , ", ",,"}).Draw(rt, "sep")
+	s.Prior = rapid.IntRange(0, 3).Draw(rt, "prior_failed") == 0
 	return s
 }
 
@@ -158,6 +192,25 @@ func (c02) Run(x *Exec, scn any) {
 	var err error
 	var pv any
 	var st string
+	if s.Prior {
+		// a rejected configuration leaves nothing behind: its root logger was already built when
+		// the tag list of a later logger turned out to be ill-formed
+		bad := &SysSpec{Style: s.Style, Props: map[string]string{"enableCaller": "false"},
+			Apps: []AppSpec{{Name: "rstale", Type: "Rec"}},
+			Logs: []LogSpec{{Name: "root", Type: "Logger", Refs: []RefSpec{{Ref: "rstale"}}}, {Name: "zz", Type: "Logger", Tags: []string{"zz*"}, Refs: []RefSpec{{Ref: "rstale"}}}}}
+		badCfg := bad.Render()
+		var perr error
+		x.do("prior-refresh", func() { pv, st = call(func() { perr = log.Refresh(badCfg) }) })
+		if pv != nil {
+			o.violate("refresh-panic", "C02/refresh-panic/"+panicSite(st), "Refresh of an invalid configuration panicked: %v", pv)
+			return
+		}
+		if perr == nil {
+			o.violate("error-expected", "C02/refresh-accepted-invalid-tags/ill-formed", "Refresh accepted the wildcard zz*")
+			x.do("destroy", func() { call(log.Destroy) })
+			return
+		}
+	}
 	x.do("refresh", func() { pv, st = call(func() { err = log.Refresh(cfg) }) })
 	if pv != nil {
 		o.violate("refresh-panic", "C02/refresh-panic/"+panicSite(st), "Refresh panicked: %v\n%v", pv, cfg)
@@ -205,6 +258,10 @@ func (c02) Run(x *Exec, scn any) {
 	for _, it := range getRec("rroot").snapshot() {
 		id, _ := itemID(it)
 		where[id] = append(where[id], "root")
+	}
+	for _, it := range getRec("rstale").snapshot() {
+		id, _ := itemID(it)
+		where[id] = append(where[id], "root-of-the-rejected-configuration")
 	}
 	for _, w := range x.FS.StdoutWrites() {
 		for _, m := range idInLine.FindAllSubmatch(w.Data, -1) {
